@@ -165,6 +165,36 @@ def counter_restarts_at_zero_on_every_connection(cls, t, new_channel):
     assert t._send_lock is lock
 
 
+@lemma("C24", family=[dict(cls=c) for c in ("TCPTunnel", "SecureTunnel")], dynamic_params=lambda fixed: dict(t=Obj({"TCPTunnel": TCPTunnel, "SecureTunnel": SecureTunnel}[fixed["cls"]], **COMMON)), params=dict(cemi=CEMI, new_channel=Int(0, 255)), stubs=[(CEMIFrame, "to_knx", _to_knx)])
+def a_frame_queued_during_a_reconnect_waits_for_it(cls, t, cemi, new_channel):
+    """send_cemi while a reconnect is registered: inside the send lock the sender first waits for the end
+    of the reconnect and only then builds its request - with the channel and the counter of the new
+    connection (0), never with the stale ones; if the reconnect was cancelled the frame goes out on
+    whatever connection state is left (refused when there is no channel)."""
+    ghost("new_channel").append(new_channel)
+    t._reconnect_task = ReconnectTask(t)
+    old_ch, old_seq = t.communication_channel, t.sequence_number
+    err = False
+    try:
+        run(t.send_cemi(cemi))
+    except CommunicationError:
+        err = True
+    tr = ghost("T")
+    assert tr[0] == "lock" and tr[1] == "await_reconnect" and tr[-1] == "unlock"
+    sends = [x[1] for x in tr if isinstance(x, tuple) and x[0] == "send"]
+    if t._reconnect_task is None:
+        # the reconnect completed: new connection
+        assert not err and len(sends) == 1
+        assert sends[0].body.communication_channel_id == new_channel and sends[0].body.sequence_counter == 0
+        assert t.sequence_number == 1
+    else:
+        # cancelled: nothing changed meanwhile
+        if old_ch is None:
+            assert err and sends == []
+        else:
+            assert len(sends) == 1 and sends[0].body.communication_channel_id == old_ch and sends[0].body.sequence_counter == old_seq
+
+
 UDP = Obj(UDPTunnel, _invalid_sequence_number_reconnect_task=None, _sequence=None, route_back=True, **COMMON)
 
 
